@@ -16,22 +16,22 @@ MEDIA = 'cssutils/css/cssmediarule.py'
 
 
 def run(chk):
-    r04a(chk)
-    r04b(chk)
-    r04c(chk, 'R04.c')
+    chk.attempt(r04a, chk)
+    chk.attempt(r04b, chk)
+    chk.attempt(r04c, chk, 'R04.c')
     from .c09 import r09c
 
-    r09c(chk, 'R04.e')
-    r04f(chk)
-    r04g(chk)
-    r04h(chk, thorough=chk.tier == 'thorough')
-    r04i(chk, thorough=chk.tier == 'thorough')
-    r04j(chk, thorough=chk.tier == 'thorough')
-    r04k(chk)
+    chk.attempt(r09c, chk, 'R04.e')
+    chk.attempt(r04f, chk)
+    chk.attempt(r04g, chk)
+    chk.attempt(r04h, chk, thorough=chk.tier == 'thorough')
+    chk.attempt(r04i, chk, thorough=chk.tier == 'thorough')
+    chk.attempt(r04j, chk, thorough=chk.tier == 'thorough')
+    chk.attempt(r04k, chk)
     from .c04b import r04l, r04m
 
-    r04l(chk, thorough=chk.tier == 'thorough')
-    r04m(chk, thorough=chk.tier == 'thorough')
+    chk.attempt(r04l, chk, thorough=chk.tier == 'thorough')
+    chk.attempt(r04m, chk, thorough=chk.tier == 'thorough')
 
 
 def _skip_calls(fn):
@@ -726,7 +726,7 @@ def r04k(chk, rid='R04.k'):
     chk.assume('R04.k: a margin box model consumes its tokens up to its closing brace and is ill-formed when it meets the marker token; the page selector parses as well-formed; the block is closed by "}"')
     import itertools
 
-    from sa.absint import Evaluator, Obj, Raised, Record
+    from sa.absint import Evaluator, Obj, Raised, Record, xml_model
 
     m = chk.repo.mod(PAGE)
     fn = m.get('CSSPageRule._setCssText')
@@ -735,11 +735,18 @@ def r04k(chk, rid='R04.k'):
     def t(typ, v):
         return (typ, v, 1, 1)
 
-    for label, order in (('behind the good one', ('good', 'bad')), ('in front of the good one', ('bad', 'good'))):
+    real_upto = None
+    for label, order in (('behind the good one', ('good', 'bad')), ('in front of the good one', ('bad', 'good')), ('(an unknown at-rule with a block) in front of a declaration and the good one', ('unknown', 'decl', 'good'))):
         boxes = {'good': [t('ATKEYWORD', '@top-left'), t('CHAR', '{'), t('IDENT', 'x'), t('CHAR', '}')],
-                 'bad': [t('ATKEYWORD', '@Top-Center'), t('IDENT', 'BAD'), t('CHAR', '{'), t('CHAR', '}')]}
+                 'bad': [t('ATKEYWORD', '@Top-Center'), t('IDENT', 'BAD'), t('CHAR', '{'), t('CHAR', '}')],
+                 'unknown': [t('ATKEYWORD', '@foo'), t('CHAR', '{'), t('IDENT', 'u'), t('CHAR', ':'), t('IDENT', 'v'), t('CHAR', '}')],
+                 'decl': []}
         decl = [t('IDENT', 'margin'), t('CHAR', ':'), t('NUMBER', '1')]
-        styletokens = boxes[order[0]] + boxes[order[1]] + decl
+        if 'decl' in order:
+            boxes['decl'] = decl + [t('CHAR', ';')]
+            styletokens = [tk for k in order for tk in boxes[k]]
+        else:
+            styletokens = boxes[order[0]] + boxes[order[1]] + decl
         made = []
 
         class Margin(Obj):
@@ -797,7 +804,8 @@ def r04k(chk, rid='R04.k'):
                 return [t('S', ' ')], t('CHAR', '{')
             if k.get('blockendonly'):
                 return list(styletokens), t('CHAR', '}')
-            raise AnalysisError(f'CSSPageRule._setCssText: unexpected _tokensupto2({k})')
+            # any other use is the real bracket counter, evaluated from the source
+            return bound_method(chk.repo, UTIL, 'Base._tokensupto2', me, {'Base': Record(_prods=Record(FUNCTION='FUNCTION'))})(tokenizer, starttoken, **k)
 
         me = Me(_cssRules=['old'], style='OLDSTYLE', _selectorText='OLDSEL', _specificity=None, parentStyleSheet=None, _parentStyleSheet=None,
                 _tokenize2=lambda x: iter(()), _nexttoken=lambda *a, **k: next(firsts), _type=lambda tok: tok[0] if tok else None,
@@ -806,12 +814,15 @@ def r04k(chk, rid='R04.k'):
         setattr(me, '__parseSelectorText', lambda toks: (True, 'NEWSEL', (0, 0, 0)))
         intr = {'super': lambda *a: Record(_setCssText=lambda x: None), 'CSSStyleDeclaration': Style, 'MarginRule': Margin, 'chain': itertools.chain,
                 'cssutils': Record(css=Record(CSSRuleList=lambda *a: [])), 'self._log.error': log.error,
-                'xml': Record(dom=Record(InvalidModificationErr='InvalidModificationErr'))}
+                'xml': xml_model()}
         res = Evaluator(fn, intrinsics=intr, module=m, cls='CSSPageRule', model_types=(Margin, Style)).run(self=me, cssText='text')
-        if isinstance(res, Raised) or len(made) != 2:
+        if isinstance(res, Raised) or len(made) != len([k for k in order if k in ('good', 'bad')]):
             raise AnalysisError(f'CSSPageRule._setCssText: evaluation ends in {res!r} with {len(made)} margin boxes')
         kept = [getattr(r, 'margin', r) for r in me._cssRules]
-        style_ok = isinstance(me.style, Style) and me.style.tokens == decl
+        # the declaration reaches the declaration block (an unknown at-rule in front of it may be handed on with it)
+        got_style = me.style.tokens if isinstance(me.style, Style) else None
+        core = [tk for tk in (got_style or []) if tk[1] != ';']
+        style_ok = got_style is not None and core[-len(decl):] == decl and core[:-len(decl)] in ([], boxes.get('unknown', []))
         ok = me._selectorText == 'NEWSEL' and style_ok and '@top-left' in kept and 'old' not in kept
-        chk.ob(rid, PAGE, 'CSSPageRule._setCssText', f'an ill-formed margin box {label} costs only itself', ok,
+        chk.ob(rid, PAGE, 'CSSPageRule._setCssText', f'an ill-formed margin box {label} costs only itself'.replace('an ill-formed margin box (an unknown', 'a statement that is no margin box (an unknown'), ok,
                f'selector {me._selectorText!r}, declarations {getattr(me.style, "tokens", me.style)!r}, margin boxes {kept}: the whole @page rule is thrown away (or keeps its old content) because of one bad margin box')
